@@ -97,86 +97,161 @@ class Compare:
             self.rep.violation(key, dict(detail, hermiticity_deviation=dev))
 
 
-def run_backends(syst, fft, dk12, maxder, klist_perm=None, gshift=None, libs=LIBS):
-    """-> {lib: {("HH_K",): arr, ("Xbar", n): arr (Wannier gauge), ("R_to_k", n): arr}}, kpoints_all; plus "klist" entries"""
+def expected_label(lib):
+    from wannierberri.fourier import fft as wbfft
+    if lib == "fftw" and not getattr(wbfft, "PYFFTW_IMPORTED", True):
+        return "numpy"                  # documented fall-back when pyfftw cannot be imported
+    return lib
+
+
+def note_label(rep, d, want):
+    """the label of the active back end (private): information only, never a verdict"""
+    try:
+        got = d.rvec.fft_R_to_k.lib
+    except AttributeError as ex:
+        skipped_private(rep, "Rvectors.fft_R_to_k.lib (label of the active back end)", ex)
+        return
+    if got != want:
+        rep.parts.setdefault("backend_labels_unexpected", {})[want] = str(got)
+
+
+def make_grid(rep, syst, fft):
     import wannierberri as wb
-    from wannierberri.data_K.data_K_R import Data_K_R
     with quiet():
         grid = wb.Grid(syst, NKdiv=1, NKFFT=list(fft))
-    if tuple(int(x) for x in grid.FFT) != tuple(fft) or tuple(int(x) for x in grid.div) != (1, 1, 1):
+    try:
+        taken = tuple(int(x) for x in grid.FFT) == tuple(fft) and tuple(int(x) for x in grid.div) == (1, 1, 1)
+    except AttributeError as ex:
+        skipped_private(rep, "Grid.FFT / Grid.div (confirmation that the requested FFT grid was taken)", ex)
+        taken = True
+    if not taken:
         raise MachineryError(f"Grid did not take the FFT grid {fft}: {grid.FFT} {grid.div}")
+    return grid
+
+
+def twelfths(kpts):
+    """k-points in reduced coordinates -> integer twelfths (not reduced), or None if some point is not a multiple of 1/12"""
+    k = np.asarray(kpts, dtype=float) * 12.0
+    r = np.round(k)
+    if k.ndim != 2 or k.shape[1] != 3 or np.abs(k - r).max() > 1e-6:
+        return None
+    return r.astype(int)
+
+
+def evaluate(d, maxder):
+    """everything C02 observes on one Data_K_R (Xbar brought back to the Wannier gauge)"""
+    res = {("HH_K",): np.array(d.HH_K)}
+    U = d.UU_K
+    for n in range(maxder + 1):
+        res[("Xbar", n)] = unrotate(d.Xbar('Ham', n), U)
+        res[("R_to_k", n)] = np.array(d.rvec.R_to_k(d.get_R_mat('Ham').copy(), der=n, hermitian=False))
+    for n in range(min(maxder, 1) + 1):
+        res[("R_to_k_herm", n)] = np.array(d.rvec.R_to_k(d.get_R_mat('Ham').copy(), der=n, hermitian=True))
+    return res
+
+
+def run_backends(rep, det, syst, fft, dk12, maxder, k_list=None, libs=LIBS):
+    """-> {lib: (results, kpoints_all of that Data_K or None)}; "klist" for the explicit list.  A back end that raises is a violation
+    and is left out"""
+    from wannierberri.data_K.data_K_R import Data_K_R
+    grid = make_grid(rep, syst, fft)
     dK = np.array(dk12, dtype=float) / 12.0
     out = {}
-    kall = None
     for lib in libs:
-        with quiet():
-            d = Data_K_R(syst, dK=dK, grid=grid, fftlib=lib)
-            res = {("HH_K",): np.array(d.HH_K)}
-            U = d.UU_K
-            for n in range(maxder + 1):
-                res[("Xbar", n)] = unrotate(d.Xbar('Ham', n), U)
-                res[("R_to_k", n)] = np.array(d.rvec.R_to_k(d.get_R_mat('Ham').copy(), der=n, hermitian=False))
-            res[("R_to_k_herm", 0)] = np.array(d.rvec.R_to_k(d.get_R_mat('Ham').copy(), der=0, hermitian=True))
-            if d.rvec.fft_R_to_k.lib != lib:
-                raise MachineryError(f"back end {lib} not active: {d.rvec.fft_R_to_k.lib}")
-            ka = np.array(d.kpoints_all)
-        if kall is None:
-            kall = ka
-        elif not np.array_equal(ka, kall):
-            raise MachineryError("kpoints_all differs between back ends")
-        out[lib] = res
-    if klist_perm is not None:
-        kl = kall[list(klist_perm)] + (np.array(gshift, dtype=float) if gshift is not None else 0.0)
-        with quiet():
-            d = Data_K_R(syst, grid=grid, k_list=kl, fftlib="fftw")
-            if d.rvec.fft_R_to_k.lib != "slow_path":
-                raise MachineryError("k-list path not active")
-            res = {("HH_K",): np.array(d.HH_K)}
-            U = d.UU_K
-            for n in range(maxder + 1):
-                res[("Xbar", n)] = unrotate(d.Xbar('Ham', n), U)
-                res[("R_to_k", n)] = np.array(d.rvec.R_to_k(d.get_R_mat('Ham').copy(), der=n, hermitian=False))
-        out["klist"] = res
-    return out, kall
+        def run(lib=lib):
+            with quiet():
+                d = Data_K_R(syst, dK=dK, grid=grid, fftlib=lib)
+                res = evaluate(d, maxder)
+            note_label(rep, d, expected_label(lib))
+            try:
+                ka = np.array(d.kpoints_all)
+            except AttributeError as ex:
+                skipped_private(rep, "Data_K.kpoints_all (the order of the FFT grid is then assumed to be the one of the specification)", ex)
+                ka = None
+            return res, ka
+        done, r = guarded(rep, f"Data_K_R:{lib}", dict(det, fftlib=lib), run)
+        if done:
+            out[lib] = r
+    if k_list is not None:
+        def run_list():
+            with quiet():
+                d = Data_K_R(syst, grid=grid, k_list=k_list, fftlib="fftw")
+                res = evaluate(d, maxder)
+            note_label(rep, d, "slow_path")
+            return res, None
+        done, r = guarded(rep, "Data_K_R:klist", dict(det, fftlib="klist"), run_list)
+        if done:
+            out["klist"] = r
+    return out
 
 
-def replay_state(rep, cmp, s, maxder, rng, full):
+def replay_state(rep, cmp, s, maxder, rng, full, info):
     nw = s["nw"]
     hops = [dict(h) for h in s["hops"]]
     lat, tau = LATS[s["latid"]], TAUS[(nw, s["tauid"])]
     fft, dk = tuple(s["fft"]), tuple(s["dk"])
-    syst = build_system(nw, lat, DD, tau, hops)
+    det = dict(nw=nw, lattice=lat, centres_times_4=tau, hops=[dict(R=list(h["R"]), a=h["a"], b=h["b"], v=list(h["v"])) for h in hops],
+               NKFFT=list(fft), dK_twelfths=list(dk))
+    done, syst = guarded(rep, "System_R.from_sparse", det, lambda: build_system(nw, lat, DD, tau, hops))
+    if not done:
+        return det
     nk = fft[0] * fft[1] * fft[2]
     exp = {n: exact_rows_array(s["direct"], n, nk, nw, DD) for n in range(maxder + 1)}
-    # kpoints_all as the specification orders them
+    # kpoints_all as the specification orders them (twelfths modulo 12)
     step = [12 // f for f in fft]
-    kspec = np.array([[(step[0] * i + dk[0]) % 12, (step[1] * j + dk[1]) % 12, (step[2] * k + dk[2]) % 12]
-                      for i in range(fft[0]) for j in range(fft[1]) for k in range(fft[2])]) / 12.0
+    kspec = [((step[0] * i + dk[0]) % 12, (step[1] * j + dk[1]) % 12, (step[2] * k + dk[2]) % 12)
+             for i in range(fft[0]) for j in range(fft[1]) for k in range(fft[2])]
+    where = {k: j for j, k in enumerate(kspec)}
     perm = list(range(nk))
     rng.shuffle(perm)
     g = [rng.choice([-1, 0, 1, 2]) for _ in range(3)]
-    res, kall = run_backends(syst, fft, dk, maxder, klist_perm=perm, gshift=g, libs=LIBS if full else (rng.choice(LIBS),))
-    det = dict(nw=nw, lattice=lat, centres_times_4=tau, hops=[dict(R=list(h["R"]), a=h["a"], b=h["b"], v=list(h["v"])) for h in hops],
-               NKFFT=list(fft), dK_twelfths=list(dk))
-    if np.max(np.abs(kall - kspec)) > 1e-12:
-        rep.violation("kpoints_all:order", dict(det, got=kall.tolist(), expected=kspec.tolist()))
+    k_list = (np.array(kspec, dtype=float)[perm] + 12.0 * np.array(g, dtype=float)) / 12.0
+    libs = LIBS if full else ("numpy", rng.choice(("fftw", "slow")))
+    raw = run_backends(rep, det, syst, fft, dk, maxder, k_list=k_list, libs=libs)
+    res = {}
+    for lib, (r, ka) in raw.items():
+        # the rows are at the k-points the code reports (any order of the grid); the explicit list is in the order we gave
+        if lib == "klist":
+            rowmap = perm
+        elif ka is None:
+            rowmap = list(range(nk))
+        else:
+            k12 = twelfths(ka)
+            rowmap = None if k12 is None else [where.get(tuple(int(x) % 12 for x in k)) for k in k12]
+            if rowmap is None or sorted(x for x in rowmap if x is not None) != list(range(nk)) or len(rowmap) != nk:
+                rep.violation(f"kpoints_all:not_the_shifted_grid:{lib}", dict(det, fftlib=lib, got=np.asarray(ka).tolist(),
+                                                                              expected_set_in_twelfths=[list(k) for k in kspec]))
+                continue
+            info["grid_listed_in_another_order"] += rowmap != list(range(nk))
+        ok = True
+        out = {}
+        for key, A in r.items():
+            if A.shape[:1] != (nk,):
+                rep.violation(f"{key[0]}:shape:{lib}", dict(det, fftlib=lib, got_shape=list(A.shape), expected_rows=nk))
+                ok = False
+                break
+            B = np.empty_like(A)
+            B[rowmap] = A
+            out[key] = B
+        if ok:
+            res[lib] = out
     for lib, r in res.items():
-        e0 = exp[0] if lib != "klist" else exp[0][perm]
-        cmp.close(f"HH_K:{lib}", r[("HH_K",)], e0, dict(det, fftlib=lib))
+        cmp.close(f"HH_K:{lib}", r[("HH_K",)], exp[0], dict(det, fftlib=lib))
         cmp.herm(f"hermitian:HH_K:{lib}", r[("HH_K",)], dict(det, fftlib=lib))
-        if lib != "klist":
-            cmp.close(f"R_to_k:hermitian=True:{lib}", r[("R_to_k_herm", 0)], e0, dict(det, fftlib=lib))
+        for n in range(min(maxder, 1) + 1):
+            cmp.close(f"R_to_k:hermitian=True:der{n}:{lib}", r[("R_to_k_herm", n)], exp[n], dict(det, fftlib=lib, der=n))
         for n in range(maxder + 1):
-            en = exp[n] if lib != "klist" else exp[n][perm]
-            cmp.close(f"Xbar:der{n}:{lib}", r[("Xbar", n)], en, dict(det, fftlib=lib, der=n))
-            cmp.close(f"R_to_k:der{n}:{lib}", r[("R_to_k", n)], en, dict(det, fftlib=lib, der=n))
+            cmp.close(f"Xbar:der{n}:{lib}", r[("Xbar", n)], exp[n], dict(det, fftlib=lib, der=n))
+            cmp.close(f"R_to_k:der{n}:{lib}", r[("R_to_k", n)], exp[n], dict(det, fftlib=lib, der=n))
             cmp.herm(f"hermitian:der{n}:{lib}", r[("R_to_k", n)], dict(det, fftlib=lib, der=n))
-    names = [x for x in res if x != "klist"]
+            cmp.herm(f"hermitian:Xbar:der{n}:{lib}", r[("Xbar", n)], dict(det, fftlib=lib, der=n))
+    names = sorted(res)
     for i in range(len(names)):
         for j in range(i + 1, len(names)):
             for key in res[names[i]]:
-                cmp.close(f"backends_differ:{names[i]}-{names[j]}:{'der' + str(key[1]) if len(key) > 1 else 'HH_K'}",
+                cmp.close(f"backends_differ:{names[i]}-{names[j]}:{key[0]}:{'der' + str(key[1]) if len(key) > 1 else 'der0'}",
                           res[names[i]][key], res[names[j]][key], dict(det, quantity=list(key)))
+    info["backends_per_state"][len(res)] += 1
     return det
 
 
